@@ -249,9 +249,141 @@ def readResult (j : Json) : Option SarifResult :=
     if (ls.map readLoc).all Option.isSome then some ⟨id, t, lv, ls.filterMap readLoc⟩ else none
   | _, _, _, _ => none
 
+/-! ## the documented level of a finding (independent of `sarifSeverity`) -/
+
+/-- SARIF level per severity (sarifreport.cpp header comment / GitHub code-scanning mapping): error and warning are
+    "error", style / performance / portability are "warning", information / debug / none / internal are "note" -/
+def levelTable : List (Nat × String) :=
+  [(0, "note"), (1, "error"), (2, "error"), (3, "warning"), (4, "warning"), (5, "warning"), (6, "note"), (7, "note"), (8, "note")]
+
+/-- critical error ids are always "error" -/
+def Spec.level (f : Finding) : String :=
+  if isCritical f.id then "error" else (levelTable.lookup f.severity).getD "note"
+
 /-- what a SARIF result is meant to say about a finding -/
 def expectedResult (f : Finding) : SarifResult :=
-  { ruleId := f.id, text := f.shortMsg, level := (sarifSeverity f).toList,
+  { ruleId := f.id, text := f.shortMsg, level := (Spec.level f).toList,
     locs := f.stack.map (fun l => (l.file, (if l.line < 1 then 1 else l.line), (if l.column < 1 then (1 : Int) else (l.column : Int)))) }
+
+/-! ## a strict JSON reader for whole documents (reference side of `sarif_document`)
+
+Strings through `jsonStrDecode`, integers (optional '-', digits), arrays, objects, insignificant white space as in
+RFC 8259 §2.  Not accepted although legal JSON: `true` / `false` / `null`, fractions and exponents (the report holds
+none).  Accepted although not legal JSON: leading zeros in a number (picojson never writes one).  `fuel` bounds the
+number of values / members read; `jsonParse` gives one unit per input byte, which is always enough. -/
+
+def isJWs (c : Char) : Bool := c = ' ' || c = '\n' || c = '\t' || c = '\r'
+
+def skipWs : Str → Str
+  | [] => []
+  | c :: r => if isJWs c then skipWs r else c :: r
+
+def isDigit (c : Char) : Bool := '0' ≤ c && c ≤ '9'
+
+def natOfDigits (ds : Str) : Nat := ds.foldl (fun a c => a * 10 + (c.toNat - 48)) 0
+
+/-- a number token at the head of the input -/
+def parseNum (s : Str) : Option (Int × Str) :=
+  match s with
+  | '-' :: r =>
+    if r.takeWhile isDigit = [] then none
+    else some (-(natOfDigits (r.takeWhile isDigit) : Int), r.dropWhile isDigit)
+  | _ =>
+    if s.takeWhile isDigit = [] then none
+    else some ((natOfDigits (s.takeWhile isDigit) : Int), s.dropWhile isDigit)
+
+mutual
+def parseVal : Nat → Str → Option (Json × Str)
+  | 0, _ => none
+  | f + 1, s =>
+    match skipWs s with
+    | [] => none
+    | c :: r =>
+      if c = '"' then
+        match jsonStrDecode r with
+        | some (t, rest) => some (.str t, rest)
+        | none => none
+      else if c = '[' then
+        match skipWs r with
+        | ']' :: rest => some (.arr [], rest)
+        | r' => match parseElems f r' with
+          | some (xs, rest) => some (.arr xs, rest)
+          | none => none
+      else if c = '{' then
+        match skipWs r with
+        | '}' :: rest => some (.obj [], rest)
+        | r' => match parseMembers f r' with
+          | some (kvs, rest) => some (.obj kvs, rest)
+          | none => none
+      else if c = '-' || isDigit c then
+        match parseNum (c :: r) with
+        | some (n, rest) => some (.int n, rest)
+        | none => none
+      else none
+/-- `value (, value)* ]` -/
+def parseElems : Nat → Str → Option (List Json × Str)
+  | 0, _ => none
+  | f + 1, s =>
+    match parseVal f s with
+    | none => none
+    | some (v, r) =>
+      match skipWs r with
+      | ',' :: r' => match parseElems f r' with
+        | some (vs, rest) => some (v :: vs, rest)
+        | none => none
+      | ']' :: rest => some ([v], rest)
+      | _ => none
+/-- `"key" : value (, "key" : value)* }` -/
+def parseMembers : Nat → Str → Option (List (Str × Json) × Str)
+  | 0, _ => none
+  | f + 1, s =>
+    match skipWs s with
+    | '"' :: r =>
+      match jsonStrDecode r with
+      | none => none
+      | some (k, r1) =>
+        match skipWs r1 with
+        | ':' :: r2 =>
+          match parseVal f r2 with
+          | none => none
+          | some (v, r3) =>
+            match skipWs r3 with
+            | ',' :: r4 => match parseMembers f r4 with
+              | some (kvs, rest) => some ((k, v) :: kvs, rest)
+              | none => none
+            | '}' :: rest => some ([(k, v)], rest)
+            | _ => none
+        | _ => none
+    | _ => none
+end
+
+/-- a complete JSON text: one value, only white space behind it -/
+def jsonParse (s : Str) : Option Json :=
+  match parseVal (s.length + 1) s with
+  | some (v, rest) => if skipWs rest = [] then some v else none
+  | none => none
+
+/-- the object `serialize` hand-splices: `"version": "2.1.0"` in front of the members of the document -/
+def withVersion : Json → Json
+  | .obj kvs => .obj (("version".toList, S "2.1.0") :: kvs)
+  | j => j
+
+/-- `runs[0].results` of a SARIF document -/
+def reportResults (j : Json) : Option (List Json) :=
+  match j.get "runs" with
+  | some (.arr [run]) =>
+    match run.get "results" with
+    | some (.arr rs) => some rs
+    | _ => none
+  | _ => none
+
+/-- `runs[0].tool.driver.rules` -/
+def reportRules (j : Json) : Option (List Json) :=
+  match j.get "runs" with
+  | some (.arr [run]) =>
+    match (run.get "tool").bind (fun t => (t.get "driver").bind (fun d => d.get "rules")) with
+    | some (.arr rs) => some rs
+    | _ => none
+  | _ => none
 
 end Cppcheck.Sarif
